@@ -434,8 +434,13 @@ func c19Run(c *fw.Ctx, i int) {
 	}
 	// ---- fault enumeration ----
 	nFiles := base.Calls
-	if nFiles > 40 {
-		nFiles = 40
+	maxK := 40
+	if c.Thorough() {
+		maxK = 150
+	}
+	if nFiles > maxK {
+		nFiles = maxK
+		c.Count("sites-with-more-files-than-enumerated", 1)
 	}
 	inject := func(jobs, k int, persistent bool) bool {
 		c.Count("fault-injections", 1)
